@@ -1624,3 +1624,26 @@ V(id='c17-constant-retry-same-precision', prop='C17', file='mpmath/libmp/libelef
 V(id='c17-constant-margin-benign', prop='C17', file='mpmath/libmp/libelefun.py',
   old="                if r > 16:", new="                if r >= 32:",
   expect='silent')
+
+# ---- C15 C-R15 shape discipline (fixes f6a02a3, 1197675) ----
+V(id='c15-gamma-real-case-rectangle', prop='C15', file='mpmath/libmp/libmpi.py',
+  old="        return mpi_gamma((a1,a2), prec, type), mpi_zero", new="        return mpi_gamma(z, prec, type), mpi_zero",
+  expect='fire:C-R15:mpci_gamma')
+V(id='c15-conjugate-mpf-neg', prop='C15', file='mpmath/ctx_iv.py',
+  old="        return s.ctx.make_mpc((a, mpi_neg(b)))", new="        return s.ctx.make_mpc((a, mpf_neg(b)))",
+  expect='fire:C-R15:conjugate')
+V(id='c15-arg-of-rectangle-parts-swapped-shape', prop='C15', file='mpmath/libmp/libmpi.py',
+  old="def mpci_arg(z, prec):\n    x, y = z\n    return mpi_atan2(y, x, prec)", new="def mpci_arg(z, prec):\n    x, y = z\n    return mpi_atan2(z, x, prec)",
+  expect='fire:C-R15:mpci_arg')
+V(id='c15-shape-benign-inline-pair', prop='C15', file='mpmath/libmp/libmpi.py',
+  old="        return mpi_gamma((a1,a2), prec, type), mpi_zero", new="        re = (a1, a2)\n        return mpi_gamma(re, prec, type), mpi_zero",
+  expect='silent')
+
+# ---- C04 H-R15 shape discipline ----
+V(id='c04-shape-mpf-kernel-gets-pair', prop='C04', file='mpmath/libmp/libmpc.py',
+  old="def mpc_add_mpf(z, x, prec, rnd=round_fast):\n    a, b = z\n    return mpf_add(a, x, prec, rnd), b",
+  new="def mpc_add_mpf(z, x, prec, rnd=round_fast):\n    a, b = z\n    return mpf_add(z, x, prec, rnd), b",
+  expect='fire:H-R15:mpc_add_mpf')
+V(id='c04-shape-mpc-kernel-gets-mpf', prop='C04', file='mpmath/ctx_mp_python.py',
+  old="            v._mpc_ = mpc_add_mpf(s._mpc_, t._mpf_, prec, rounding)", new="            v._mpc_ = mpc_add(s._mpc_, t._mpf_, prec, rounding)",
+  expect='fire:H-R15:__add__')
